@@ -28,7 +28,7 @@ cd /verif
 for id in "$@"; do
   out=$(VERIF_REPO=$wt VERIF_WATCHDOG=${VERIF_WATCHDOG:-900} ./check "$id" 2>&1); rc=$?
   echo "CHECK $id rc=$rc"
-  echo "$out" | grep -E "VIOLATION|KNOWN-FINDING|HARNESS-ERROR|OK property|INCONCLUSIVE" | cut -c1-300 | head -5
+  echo "$out" | grep -E "VIOLATION" | cut -c1-300 | head -6; echo "$out" | grep -E "HARNESS-ERROR|OK property|INCONCLUSIVE" | cut -c1-300 | head -3
 done
 rm -rf /verif/.work/*-$(echo -n "$wt" | sha1sum | cut -c1-8)-* /tmp/vs-*-$$.log
 echo "RESULT $d: CONFIRMED"
